@@ -76,11 +76,13 @@ class Loop(Exception):
 class Translator:
     """consts: python name -> (kind, coq text); records: class name -> (coq record constructor fields [(attr, field)])"""
 
-    def __init__(self, modules, consts, records, prims=None):
+    def __init__(self, modules, consts, records, prims=None, nonzero=()):
+        self.nonzero = set(nonzero)   # Coq texts of constants known to be non-zero (no ZeroDivisionError guard)
         self.modules = {m.name: m for m in modules}
         self.consts = consts
         self.records = records
         self.prims = prims or {}
+        self.pending = []      # guards / option binds raised by the expression being evaluated (see with_pending)
         self.aux = []          # generated auxiliary Fixpoints (loops), in order
         self.aux_names = {}
         self.sources = {m.name: hashlib.sha1(m.text.encode()).hexdigest()[:12] for m in modules}
@@ -171,10 +173,24 @@ class Translator:
                 return ("static", not v[1]) if v[0] == "static" else Bv(f"(negb {v[1]})")
             _bad(node, "unary operator")
         if isinstance(node, ast.BinOp):
-            a, b = self.num(self.expr(node.left, env, heap)), self.num(self.expr(node.right, env, heap))
-            return self.binop(node, a, b)
+            a, b = self.expr(node.left, env, heap), self.expr(node.right, env, heap)
+            if a[0] == "L" and b[0] in ("Q", "Z", "num") and a[1] in ("Q", "Z") and isinstance(node.op, (ast.Add, ast.Sub, ast.Mult)):
+                # numpy broadcasting: array op scalar
+                x = (a[1], "x_")
+                r = self.binop(node, x, self.num(b))
+                return ("L", r[0], f"(map (fun x_ => {r[1]}) {a[2]})")
+            return self.binop(node, self.num(a), self.num(b))
+        if isinstance(node, ast.ListComp):
+            return self.listcomp(node, env, heap)
+        if isinstance(node, ast.Subscript):
+            return self.subscript(node, env, heap)
         if isinstance(node, ast.BoolOp):
-            vals = [self.truth(self.expr(v, env, heap), node) for v in node.values]
+            vals = []
+            for i, v in enumerate(node.values):
+                n0 = len(self.pending)
+                vals.append(self.truth(self.expr(v, env, heap), node))
+                if i > 0 and len(self.pending) != n0:
+                    _bad(node, "short-circuited operand can raise")
             is_and = isinstance(node.op, ast.And)
             out = []
             for v in vals:
@@ -192,8 +208,16 @@ class Translator:
             c = self.truth(self.expr(node.test, env, heap), node)
             if c[0] == "static":
                 return self.expr(node.body if c[1] else node.orelse, env, heap)
+            n0 = len(self.pending)
             a, b = self.expr(node.body, env, heap), self.expr(node.orelse, env, heap)
-            a, b = self.unify(a, b, node)
+            if len(self.pending) != n0:
+                _bad(node, "conditional operand can raise")
+            if a[0] in ("static", "B") and b[0] in ("static", "B"):
+                ta, tb = [("true" if x[1] else "false") if x[0] == "static" else x[1] for x in (a, b)]
+                return Bv(f"(if {c[1]} then {ta} else {tb})")
+            a, b = self.unify(self.num(a), self.num(b), node)
+            if a[0] == "num":
+                a, b = self.toZ(a), self.toZ(b)
             return (a[0], f"(if {c[1]} then {a[1]} else {b[1]})")
         if isinstance(node, ast.Attribute):
             return self.load_attr(node, env, heap)
@@ -201,8 +225,7 @@ class Translator:
             tree = self.call(node, env, heap, lambda v, h: ("ret", v, h))
             if tree[0] != "ret":
                 _bad(node, "call with control flow inside an expression")
-            if tree[2] is not heap and tree[2] != heap:
-                _bad(node, "call with side effects inside an expression")
+            self.absorb(heap, tree[2])
             return tree[1]
         _bad(node, "expression kind")
 
@@ -277,12 +300,21 @@ class Translator:
         if isinstance(op, ast.Div):
             if k != "Q":
                 a, b = self.toQ(a), self.toQ(b)
+            self.guard(f"(Qeq_bool {b[1]} 0)", "ZeroDivisionError")
             return Qv(f"({a[1]} / {b[1]})")
         if isinstance(op, ast.Mod):
             if k == "Q":
+                if b[1] not in self.nonzero:
+                    self.guard(f"(Qeq_bool {b[1]} 0)", "ZeroDivisionError")
                 return Qv(f"(qmod {b[1]} {a[1]})")
+            self.guard(f"(Z.eqb {b[1]} 0)", "ZeroDivisionError")
             return Zv(f"(Z.modulo {a[1]} {b[1]})")
         _bad(node, "binary operator")
+
+    def guard(self, cond, exc):
+        g = ("guard", cond, exc)
+        if g not in self.pending:
+            self.pending.append(g)
 
     def cmp1(self, op, a, b, node):
         a, b = self.unify(self.num(a), self.num(b), node)
@@ -323,6 +355,10 @@ class Translator:
                 return ("static", (lv == NONE) == pos)
             _bad(node, "identity test")
         vals = [self.expr(node.left, env, heap)] + [self.expr(c, env, heap) for c in node.comparators]
+        if len(vals) == 2 and vals[1][0] == "L" and vals[1][1] in ("Q", "Z") and vals[0][0] in ("Q", "Z", "num"):
+            # numpy broadcasting: scalar < array  ->  boolean array
+            c = self.cmp1(node.ops[0], vals[0], (vals[1][1], "x_"), node)
+            return ("L", "B", f"(map (fun x_ => {c[1]}) {vals[1][2]})")
         parts = [self.cmp1(op, vals[i], vals[i + 1], node) for i, op in enumerate(node.ops)]
         if len(parts) == 1:
             return parts[0]
@@ -331,20 +367,84 @@ class Translator:
         parts = [p for p in parts if p[0] != "static"]
         return self._fold(parts, True) if parts else ("static", True)
 
+    def absorb(self, heap, new):
+        """a call inlined inside an expression returned plainly but stored attributes (a memoising getter): the
+        stores take effect on the current path (heaps are copied whenever paths diverge)"""
+        if new is not heap and new != heap:
+            heap.clear()
+            heap.update(copy.deepcopy(new))
+
+    def field_value(self, k, text, heap):
+        if isinstance(k, tuple) and k[0] == "list":
+            return ("L", k[1], text)
+        if isinstance(k, tuple) and k[0] == "obj":
+            return self.sym_object(k[1], text, heap)
+        return (k, text)
+
+    def sym_object(self, cname, var, heap):
+        """a symbolic object of a record class whose fields are projections of the Coq term var"""
+        rec, fields = self.records[cname]
+        oid = max(heap) + 1 if heap else 0
+        heap[oid] = {"__class__": cname}
+        for attr, fld, k in fields:
+            heap[oid][attr] = self.field_value(k, f"({fld} {var})", heap)
+        return ("ref", oid)
+
+    def listcomp(self, node, env, heap):
+        if len(node.generators) != 1 or node.generators[0].ifs or not isinstance(node.generators[0].target, ast.Name):
+            _bad(node, "list comprehension form")
+        src = self.expr(node.generators[0].iter, env, heap)
+        if src[0] != "L":
+            _bad(node, "comprehension over a non-list")
+        var = node.generators[0].target.id
+        h2 = copy.deepcopy(heap)
+        env2 = dict(env)
+        if isinstance(src[1], tuple) and src[1][0] == "obj":
+            env2[var] = self.sym_object(src[1][1], "x_", h2)
+        else:
+            env2[var] = (src[1], "x_")
+        n0 = len(self.pending)
+        v = self.expr(node.elt, env2, h2)
+        if len(self.pending) != n0:
+            _bad(node, "comprehension element can raise")
+        if v[0] not in ("Q", "Z", "B"):
+            _bad(node, "comprehension element kind")
+        return ("L", v[0], f"(map (fun x_ => {v[1]}) {src[2]})")
+
+    def subscript(self, node, env, heap):
+        base = self.expr(node.value, env, heap)
+        if base[0] != "L":
+            _bad(node, "subscript of a non-list")
+        idx = self.num(self.expr(node.slice, env, heap))
+        if idx[0] == "Q":
+            _bad(node, "float index")
+        idx = self.toZ(idx)
+        cnt = self._fresh = getattr(self, "_fresh", 0) + 1
+        var = f"e_{cnt}"
+        self.pending.append(("bind", f"(pyindex {base[2]} {idx[1]})", var, "IndexError"))
+        if isinstance(base[1], tuple) and base[1][0] == "obj":
+            # NOTE: the object is allocated in the caller's heap copy; attribute reads only
+            return ("symobj", base[1][1], var)
+        return (base[1], var)
+
     def load_attr(self, node, env, heap):
         # module constants: validity.X, math.pi ...
         dotted = ast.unparse(node)
         if dotted in self.consts:
             return self.consts[dotted]
         base = self.expr(node.value, env, heap)
+        if base[0] == "symobj":
+            heap = copy.deepcopy(heap)
+            base = self.sym_object(base[1], base[2], heap)
         if base[0] != "ref":
             _bad(node, "attribute of a non-object")
         obj = heap[base[1]]
         getter = self.find_member(obj["__class__"], node.attr, "getter")
         if getter is not None:
             tree = self.call_def(getter, [base], {}, heap, lambda v, h: ("ret", v, h))
-            if tree[0] != "ret" or tree[2] != heap:
-                _bad(node, "property getter with control flow / side effects")
+            if tree[0] != "ret":
+                _bad(node, "property getter with control flow")
+            self.absorb(heap, tree[2])
             return tree[1]
         if node.attr in obj:
             return obj[node.attr]
@@ -474,6 +574,21 @@ class Translator:
     def block(self, stmts, env, heap, k_ret, k_end, fn):
         if not stmts:
             return k_end(env, heap)
+        saved, self.pending = self.pending, []
+        mine = self.pending
+        try:
+            tree = self.block1(stmts, env, heap, k_ret, k_end, fn)
+        finally:
+            self.pending = saved
+        # exceptions the evaluation of this statement's expressions can raise, outermost first
+        for g in reversed(mine):
+            if g[0] == "guard":
+                tree = self.mk_if(g[1], ("raise", g[2]), tree)
+            else:
+                tree = ("bind", g[1], g[2], tree, g[3])
+        return tree
+
+    def block1(self, stmts, env, heap, k_ret, k_end, fn):
         s, rest = stmts[0], stmts[1:]
 
         def cont(env, heap):
@@ -645,13 +760,21 @@ class Translator:
             if kind in ("Q", "Z", "nat"):
                 args.append((kind, nm))
                 binders.append(f"({nm} : {kind})")
+            elif kind == "list":
+                ek = p[2]
+                if isinstance(ek, tuple):
+                    args.append(("L", ek, nm))
+                    binders.append(f"({nm} : list {self.records[ek[1]][0]})")
+                else:
+                    args.append(("L", ek, nm))
+                    binders.append(f"({nm} : list {ek})")
             elif kind == "obj":
                 cname = p[2]
                 rec, fields = self.records[cname]
                 oid = len(heap)
                 heap[oid] = {"__class__": cname}
                 for attr, fld, k in fields:
-                    heap[oid][attr] = (k, f"({fld} {nm})")
+                    heap[oid][attr] = self.field_value(k, f"({fld} {nm})", heap)
                 args.append(("ref", oid))
                 binders.append(f"({nm} : {rec})")
             else:
@@ -694,8 +817,10 @@ class Translator:
         return f"{cm}Definition {name} {' '.join(binders)} : {ty} :=\n  {body}."
 
     def any_node(self, t, tag):
-        if t[0] == tag:
+        if t[0] == tag or (tag == "raise" and t[0] == "bind"):
             return True
+        if t[0] == "bind":
+            return self.any_node(t[3], tag)
         if t[0] == "if":
             return self.any_node(t[2], tag) or self.any_node(t[3], tag)
         if t[0] == "loop":
@@ -705,6 +830,8 @@ class Translator:
     def any_ret(self, t, pred):
         if t[0] == "ret":
             return pred(t[1])
+        if t[0] == "bind":
+            return self.any_ret(t[3], pred)
         if t[0] == "if":
             return self.any_ret(t[2], pred) or self.any_ret(t[3], pred)
         if t[0] == "loop":
@@ -718,6 +845,8 @@ class Translator:
             return qlit(v[1]) if ret == "Q" else (f"{v[1]}%Z" if v[1] >= 0 else f"({v[1]})%Z")
         if v[0] == "static":
             return "true" if v[1] else "false"
+        if v[0] == "L" and not isinstance(v[1], tuple):
+            return v[2]
         if v[0] == "tup":
             return "(" + ", ".join(self.render_val(x, heap, ret) for x in v[1]) + ")"
         if v[0] == "ref":
@@ -750,11 +879,29 @@ class Translator:
             a = self.render(t[2], ret, has_raise, has_loop, opt_val, ind + "  ")
             b = self.render(t[3], ret, has_raise, has_loop, opt_val, ind + "  ")
             return f"if {t[1]}\n{ind}then {a}\n{ind}else {b}"
+        if t[0] == "bind":
+            sub = self.render(t[3], ret, has_raise, has_loop, opt_val, ind + "  ")
+            err = "Some Err" if has_loop else "Err"
+            return f"match {t[1]} with\n{ind}| Some {t[2]} => {sub}\n{ind}| None => {err}\n{ind}end"
         if t[0] == "loop":
             pat = ", ".join(t[2])
             sub = self.render(t[3], ret, has_raise, has_loop, opt_val, ind + "  ")
             return f"match {t[1]} with\n{ind}| None => None\n{ind}| Some ({pat}) => {sub}\n{ind}end"
         raise TranslationError("tree")
+
+
+def emit_file(tr, header, jobs, section_vars=""):
+    """jobs: list of (coq name, target, params, ret, comment); returns the text of the generated file"""
+    defs = [tr.translate(nm, tg, ps, rt, cm) for nm, tg, ps, rt, cm in jobs]
+    srcs = ", ".join(f"{m.path} sha1={tr.sources[m.name]}" for m in tr.modules.values())
+    out = [f"(* GENERATED on every run by harness/vlib/py2coq.py (symbolic execution of the Python source). Do not edit.",
+           f"   sources: {srcs} *)", header, ""]
+    if section_vars:
+        out += ["Section Src.", section_vars, ""]
+    out += tr.aux + [""] + defs
+    if section_vars:
+        out += ["End Src."]
+    return "\n".join(out) + "\n"
 
 
 def write_if_changed(path, text):
